@@ -46,6 +46,8 @@ def menu_for(path):
     for v in NS_PRE:
         out.append(["ns_pre", p, v])
     out.append(["id", p, None])
+    out.append(["id", p, ""])          # ids a truthiness test would take for "no id"
+    out.append(["id", p, "0"])
     return out
 
 
@@ -140,6 +142,33 @@ def check1(g, case, extras_first):
         if Node.get_node_instance(n.id) is not n:
             bad("registry_not_rebound", f"get_node_instance({n.id!r}) is the loaded node", "another object", codec="metapype_io")
             break
+    # --- a document written by hand (own writer, values straight from the spec; only minted ids and the namespace
+    # maps the library computed are taken from the built tree): loading it and saving it again is the identity
+    def doc_of(gn, tn):
+        return {gn["name"]: [{"id": gn["id"] if gn.get("id") is not None else tn.id}, {"nsmap": dict(tn.nsmap)},
+                             {"prefix": gn["prefix"]}, {"attributes": dict(map(tuple, gn["attrs"]))},
+                             {"extras": dict(map(tuple, gn["extras"]))}, {"content": gn["content"]}, {"tail": gn["tail"]},
+                             {"children": [doc_of(cg, ct) for cg, ct in zip(gn["children"], tn.children)]}]}
+
+    def snap_of(dn):
+        (name, body), = dn.items()
+        return (body[0]["id"], name, body[5]["content"], body[6]["tail"], tuple(body[3]["attributes"].items()),
+                tuple(body[4]["extras"].items()), body[2]["prefix"], tuple(body[1]["nsmap"].items()),
+                tuple(snap_of(c) for c in body[7]["children"]))
+    if not extras_first and not any(set(dict(map(tuple, n_["attrs"]))) & set(dict(map(tuple, n_["extras"]))) for _, n_ in gtree.walk(g)):
+        try:
+            doc = doc_of(g, t)
+            text = json.dumps(doc)
+            sd = snap_of(doc)
+            core.reset_store()
+            td = metapype_io.from_json(text)
+            dd = gtree.snap_diff(sd, gtree.snap(td))
+            if dd:
+                bad("document_load_differs", {"path": dd[0], "field": dd[1], "value": dd[2]}, dd[3], codec="metapype_io", field=dd[1])
+            if metapype_io.to_json(td) != text:
+                bad("document_resave_differs", text[:300], metapype_io.to_json(td)[:300], codec="metapype_io")
+        except Exception as e:  # noqa
+            bad("codec_raised", "hand-written document round trip", repr(e), codec="metapype_io-document", exc=type(e).__name__)
     # --- legacy codec --------------------------------------------------
     if extras_first:
         return probs
@@ -209,10 +238,14 @@ def work(item):
             for j in range(i + 1, len(devs)):
                 if devs[i][0] == devs[j][0] and devs[i][1] == devs[j][1]:
                     continue
+                if devs[i][0] == "id" and devs[j][0] == "id" and devs[i][2] is not None and devs[i][2] == devs[j][2]:
+                    continue        # two nodes with one explicit id: the registry can only name one of them
                 run([devs[i], devs[j]])
                 if d >= 3:
                     for k in range(j + 1, len(devs)):
                         if any(devs[k][0] == x[0] and devs[k][1] == x[1] for x in (devs[i], devs[j])):
+                            continue
+                        if devs[k][0] == "id" and devs[k][2] is not None and any(x[0] == "id" and x[2] == devs[k][2] for x in (devs[i], devs[j])):
                             continue
                         run([devs[i], devs[j], devs[k]])
     acc.count("trees", n)
